@@ -118,7 +118,7 @@ fn mutate(dest: &Path, rng: &mut Rng, kind: u64) -> String {
         _ = filetime::set_file_times(p, ft, ft);
     };
     let pick = |rng: &mut Rng| -> &'static str { *rng.pick(&["a", "d/c", "d/e/f", "d/zeros", "g"]) };
-    match kind % 17 {
+    match kind % 18 {
         0 => "identical".into(),
         1 => {
             // same size, other content, same mtime: only verification can notice
@@ -233,6 +233,18 @@ fn mutate(dest: &Path, rng: &mut Rng, kind: u64) -> String {
             }
             std::fs::write(&p, &d).unwrap();
             format!("chunks-overwritten {f} {hit:?}")
+        }
+        17 => {
+            // same size, other content, mtime in the same second but with other nanoseconds: not "unchanged"
+            let f = pick(rng);
+            let p = dest.join(f);
+            let md = std::fs::symlink_metadata(&p).unwrap();
+            let len = md.len() as usize;
+            std::fs::write(&p, rng.bytes(len)).unwrap();
+            let ns = (md.mtime_nsec() as u32 + 1 + rng.below(900_000_000) as u32) % 1_000_000_000;
+            let ft = filetime::FileTime::from_unix_time(md.mtime(), ns);
+            _ = filetime::set_file_times(&p, ft, ft);
+            format!("modify-same-size-same-second {f}")
         }
         _ => {
             // several at once
@@ -354,7 +366,7 @@ pub fn run(a: &Args) {
                     "opts":o,"snap":[],"pre":[],"post":[],"outside_pre":[],"outside_post":[]}));
                 continue;
             }
-            let mk = c + rng.below(17);
+            let mk = c + rng.below(18);
             what = mutate(&dest, &mut rng, mk);
         }
         let pre = project(&dest);
